@@ -499,16 +499,88 @@ def apply_function_reference(bodies_json, ref):
     return sorted(ren.items())
 
 
+def adt_fields(adts_json):
+    """{adt raw name: {variant: [[field name, type], ...]}} for crate-local ADTs with named fields."""
+    out = {}
+    for a in adts_json:
+        vs = {}
+        for v in a.get("variants", []):
+            fl = [[f["name"], f["ty"]] for f in v.get("fields", [])]
+            if fl and not all(re.fullmatch(r"\d+", f[0]) for f in fl):
+                vs[v["name"]] = fl
+        if vs:
+            out[a["name"]] = vs
+    return out
+
+
+def apply_field_reference(j, ref):
+    """A field that was merely renamed (same ADT and variant, same position, same type, and the new name
+    is not the old name of another field) is read under its reference name."""
+    cur = adt_fields(j["adts"])
+    ren = {}     # (adt, variant, new) -> old
+    for adt, vs in ref.items():
+        cvs = cur.get(adt)
+        if not cvs:
+            continue
+        for vname, rf in vs.items():
+            cf = cvs.get(vname)
+            if not cf or len(cf) != len(rf) or any(c[1] != r[1] for c, r in zip(cf, rf)):
+                continue
+            rnames = [r[0] for r in rf]
+            cnames = [c[0] for c in cf]
+            if rnames == cnames or any(c != r and c in rnames for c, r in zip(cnames, rnames)):
+                continue
+            for c, r in zip(cnames, rnames):
+                if c != r:
+                    ren[(adt, vname, c)] = r
+    if not ren:
+        return []
+    by_adt = {}
+    for (adt, vname, c), r in ren.items():
+        by_adt.setdefault(adt, {})[c] = r     # field names are unique per variant; struct-like enums rarely share names across variants with different meanings
+    for a in j["adts"]:
+        m = by_adt.get(a["name"])
+        if m:
+            for v in a.get("variants", []):
+                for f in v.get("fields", []):
+                    if (a["name"], v["name"], f["name"]) in ren:
+                        f["name"] = ren[(a["name"], v["name"], f["name"])]
+
+    def fix_place(pl):
+        for e in pl.get("p", []) if isinstance(pl, dict) else []:
+            if isinstance(e, dict) and "f" in e and e.get("of") in by_adt and e["f"] in by_adt[e["of"]]:
+                e["f"] = by_adt[e["of"]][e["f"]]
+
+    def walk(o):
+        if isinstance(o, dict):
+            if "p" in o and "l" in o:
+                fix_place(o)
+            if o.get("r") == "agg" and o.get("ak") == "adt" and o.get("adt") in by_adt:
+                o["fields"] = [ren.get((o["adt"], o.get("variant"), f), f) for f in o.get("fields", [])]
+            for v in o.values():
+                walk(v)
+        elif isinstance(o, list):
+            for v in o:
+                walk(v)
+    for b in j["bodies"]:
+        walk(b["blocks"])
+        for d in b.get("debug", []):
+            walk(d)
+    return sorted(("%s::%s.%s" % k, v) for k, v in ren.items())
+
+
 class Facts:
     def __init__(self, path, meta=None):
         with open(path) as fh:
             self.j = json.load(fh)
         self.closure_aliases = []
         self.function_aliases = []
+        self.field_aliases = []
         _ref_path = os.path.join(os.path.dirname(os.path.dirname(os.path.dirname(os.path.abspath(__file__)))), "reference_names.json")
         if os.path.exists(_ref_path):
             with open(_ref_path) as fh:
                 _ref = json.load(fh)
+            self.field_aliases = apply_field_reference(self.j, _ref.get("fields", {}))
             self.function_aliases = apply_function_reference(self.j["bodies"], _ref.get("functions", {}))
             self.closure_aliases = apply_closure_reference(self.j["bodies"], _ref.get("closures", {}))
         self.path = path
